@@ -441,6 +441,18 @@ def _mw(spec, ctx):
     if gf is not core.NOVALUE:
         ctx.close('T8', gf, want, 1e-12, {'table': 'get_molecular_weight', 'key': 'formula'},
                   formula=spec['formula'])
+    # history: a caller edits the composition it got back from parse_formula; a later lookup of the same
+    # formula must not see the edit (no state shared between calls)
+    d = ctx.call('T8', {'table': 'parse_formula', 'key': 'formula'}, pmutt.parse_formula, spec['formula'])
+    if d is not core.NOVALUE and isinstance(d, dict) and d:
+        k0 = sorted(d)[0]
+        d[k0] = d[k0] + 5
+        d['Xx'] = 1
+        again = ctx.call('T8', {'table': 'get_molecular_weight', 'key': 'formula', 'history': 'after_edit'},
+                         pmutt.get_molecular_weight, spec['formula'])
+        if again is not core.NOVALUE:
+            ctx.close('T8', again, want, 1e-12, {'table': 'get_molecular_weight', 'key': 'formula',
+                                                 'history': 'after_edit'}, formula=spec['formula'])
 
 
 def run_case(spec, ctx):
